@@ -449,7 +449,10 @@ def calcsize(format: str) -> int:
         "COMPUTATIONAL-3",
         "PACKED-DECIMAL",
     ):
-        return (representation.picture_size + 1) // 2
+        digits = len(representation.digit_groups[1]) + len(
+            representation.digit_groups[3]
+        )
+        return (digits + 2) // 2
     elif representation.usage in (
         "COMP-1",
         "COMPUTATIONAL-1",
